@@ -4,6 +4,7 @@ counters by that entry's weight with the right sign and origin.
 Works on the per-path traces of the abstract interpreter: the final value written to a counter
 is a term over the counter's old value; it is decomposed into a signed sum ("linear form")."""
 from .core import RuleResult, CheckFailure
+from .roles import named
 from .kernel import norm
 from .roles import get_roles, HASHMAP_REMOVE, DASHMAP_REMOVE
 from .symex import fmt, subterms, PathLimit
@@ -129,7 +130,7 @@ def rule_flow_unsync(ctx):
             reach_ext |= R.ext_calls.get(x, set())
         interesting = reach_ext & (HASHMAP_REMOVE | {'std::collections::HashMap::insert'}) or \
             any(accumulator_summary(ctx, c) for c in prog.callees(nid) if c in prog.bodies and c.startswith(UNSYNC_CACHE))
-        if not interesting and not (nid.endswith('handle_update')):
+        if not interesting and not (nid == named(ctx, 'unsync.update_handler')):
             continue
         paths = _paths(ctx, nid)
         accs_self = accumulator_summary(ctx, nid)
@@ -187,7 +188,7 @@ def rule_flow_unsync(ctx):
                     ws_ok = ws_ok or aw
                     ec_ok = ec_ok or ac
                     via = 'accumulator'
-                if not ws_ok and nid.endswith('handle_insert'):
+                if not ws_ok and nid == named(ctx, 'unsync.insert_handler'):
                     # victims: the aggregate computed by the admission scan is subtracted instead
                     ws_ok = any(s == -1 and isinstance(a, tuple) and a and a[0] == 'payload' and 'Admitted' in str(a[2]) for s, a in fws)
                     via = 'admission-aggregate'
@@ -241,7 +242,7 @@ def rule_flow_unsync(ctx):
                     r.violate(nid, 'admission-count-not-added', 'entry_count', 'an admission path does not add 1 to entry_count',
                               where=ctx.where(nid, adm[0][3]), expected='entry_count += 1')
         # ---- update role: replaces an entry in place
-        if nid.endswith('handle_update') or (b.argc >= 5 and 'ValueEntry' in b.locals[b.argc]['ty']['s'] and not b.locals[b.argc]['ty']['s'].startswith('&')):
+        if nid == named(ctx, 'unsync.update_handler') or (b.argc >= 5 and 'ValueEntry' in b.locals[b.argc]['ty']['s'] and not b.locals[b.argc]['ty']['s'].startswith('&')):
             old = ('param', b.argc)
             for p in paths:
                 kws, ws = final_writes(p, 'weighted_size')
@@ -282,7 +283,7 @@ def rule_flow_admit_sums_unsync(ctx):
     r = RuleResult('FLOW-admit-aggregate(unsync)', 'the aggregate weight the unsync admission scan reports for its victims is the (+) sum of the '
                    "weigher applied to each scanned victim's own key and value (or the default weight 1), and nothing derived from "
                    'the candidate')
-    nid = 'unsync::cache::Cache::admit'
+    nid = named(ctx, 'unsync.admit')
     ctx.body(nid)
     paths = _paths(ctx, nid)
     seen = 0
@@ -372,7 +373,9 @@ def rule_flow_sync(ctx):
         if not nid.startswith(SYNC_INNER + '::') or b.kind == 'closure':
             continue
         if any('EvictionCounters' in l['ty']['s'] for l in b.locals[1:b.argc + 1]) and any('ValueEntry' in l['ty']['s'] and not l['ty']['s'].startswith('&') for l in b.locals[1:b.argc + 1]):
-            if any(l.get('name') in ('old_weight', 'new_weight') for l in b.locals[1:b.argc + 1]):
+            from .roles import upsert_role
+            ur = upsert_role(ctx)
+            if ur and ur['nid'] == nid:
                 continue
             is_role, probs = _remove_role_summary(ctx, nid)
             if is_role:
@@ -383,14 +386,14 @@ def rule_flow_sync(ctx):
     if len(roles) < 2:
         raise CheckFailure('FLOW-counters(sync): expected 2 remove-role functions, found %s' % sorted(roles))
     # the upsert role: function consuming (old_weight, new_weight) of a write op
-    up = [n for n, b in prog.bodies.items() if n.startswith(SYNC_INNER + '::') and b.kind != 'closure' and
-          sum(1 for l in b.locals[1:b.argc + 1] if l.get('name') in ('old_weight', 'new_weight')) == 2]
-    if len(up) != 1:
-        raise CheckFailure('FLOW-counters(sync): upsert role not found (functions with old_weight/new_weight params: %s)' % up)
-    nid = up[0]
+    from .roles import upsert_role
+    ur = upsert_role(ctx)
+    if not ur:
+        raise CheckFailure('FLOW-counters(sync): upsert role not found (no callee of the write-op consumer receives the fields of WriteOp::Upsert)')
+    nid = ur['nid']
     b = prog.bodies[nid]
-    pidx = {l.get('name'): i for i, l in enumerate(b.locals[:b.argc + 1])}
-    P_old, P_new = ('param', pidx['old_weight']), ('param', pidx['new_weight'])
+    pidx = {'entry': ur['entry']}
+    P_old, P_new = ('param', ur['old']), ('param', ur['new'])
     sx = ctx.symex(inline_depth=3, loop_visits=2,
                    inline_pred=lambda n, bb, d: False if n in roles else None)
     try:
@@ -532,14 +535,14 @@ def rule_flow_sync(ctx):
     if not cons:
         raise CheckFailure('FLOW-counters(sync): write-op consumer not found')
     # FLOW-op-weights: what a write op carries is fixed when it is created
-    root = 'sync::base_cache::BaseCache::do_insert_with_hash'
+    root = named(ctx, 'sync.do_insert')
     if root in prog.bodies:
         for c in sorted(prog.closures_of.get(root, [])):
             for p in [q for q in ctx.symex(inline_depth=3).run(c) if not q.diverged]:
                 ups = [x for ev in p.events if ev[0] == 'write' for x in subterms(ev[2]) if isinstance(x, tuple) and x and x[0] == 'aggr' and x[2] == 'Upsert']
                 for u in ups:
-                    adt = prog.adts['common::concurrent::WriteOp']
-                    fn_ = [f['name'] for v_ in adt['variants'] if v_['name'] == 'Upsert' for f in v_['fields']]
+                    from .roles import upsert_fields
+                    fn_ = upsert_fields(ctx)
                     vals = dict(zip(fn_, u[3]))
                     ow, nw = vals.get('old_weight'), vals.get('new_weight')
                     is_update = any(ev[0] == 'call' and str(ev[1]).startswith('std::sync::atomic::') and 'policy_weight' in fmt(ev[2][0]) for ev in p.events)
